@@ -19,6 +19,9 @@ pub fn cell(spec: &Value) -> Value {
     };
     let upload_dir = spec["upload"].as_bool().unwrap();
     let prop = if upload_dir { "C02" } else { "C01" };
+    if spec["stale"].as_bool().unwrap_or(false) {
+        return stale_cell(spec, &cfg, &srv, upload_dir, prop);
+    }
     let blk = spec["blk"].as_u64().unwrap() as usize;
     let ws = spec["ws"].as_u64().unwrap() as usize;
     let lens: Vec<usize> = spec["lens"].as_array().unwrap().iter().map(|x| x.as_u64().unwrap() as usize).collect();
@@ -98,6 +101,83 @@ pub fn cell(spec: &Value) -> Value {
     c.to_json()
 }
 
+/// History: a request is accepted for this endpoint and then abandoned by the client (it never continues); the SAME
+/// endpoint then issues a second request for another file and carries it to its end. The second transfer must be
+/// exactly its own file (datagrams are demultiplexed to the transfer accepted last for that endpoint); the abandoned one
+/// is left to die of its retries (timeout=1: six seconds of wall clock in single-port mode; in multi-port mode it is ended
+/// by an ERROR to its own port).
+fn stale_cell(spec: &Value, cfg: &SrvCfg, srv: &Srv, upload_dir: bool, prop: &str) -> Value {
+    use crate::refcodec as rc;
+    let mut c = Counters::default();
+    let mut viol: Vec<(String, String)> = vec![];
+    let t1 = vec![("timeout".to_string(), "1".to_string())];
+    let mut cl = Client::new(srv.addr);
+    let data = body(1300);
+    let stale_name = format!("stale_{}", std::process::id());
+    let desc;
+    if upload_dir {
+        cl.to_server(&rc::request(true, stale_name.as_bytes(), &t1));
+        let first = cl.recv_wait(BACKSTOP);
+        let stale_peer = first.as_ref().map(|(_, from)| *from);
+        cl.reset_for_reuse();
+        let name = format!("fresh_{}", std::process::id());
+        desc = format!("upload of 1300 bytes as {name:?} from an endpoint whose earlier WRQ for {stale_name:?} (answered with {}) was abandoned", first.as_ref().map(|(b, _)| rc::describe(b)).unwrap_or("nothing".into()));
+        let r = upload_on(&mut cl, srv, name.as_bytes(), &[], &data);
+        c.transitions += r.acks.len() as u64 + 2;
+        let p = format!("{}/{}", srv.recv_dir, name);
+        let stored = std::fs::read(&p).ok();
+        if !r.completed || stored.as_deref() != Some(&data[..]) {
+            viol.push(("e2-upload-content".into(), format!("{desc}: completed={} error={:?} stored {:?} bytes, payload 1300 (the abandoned target holds {:?} bytes); ACKs seen {:?}; anomalies {:?}", r.completed, r.error, stored.map(|s| s.len()), std::fs::metadata(format!("{}/{}", srv.recv_dir, stale_name)).ok().map(|m| m.len()), &r.acks[..r.acks.len().min(10)], &r.anomalies[..r.anomalies.len().min(3)])));
+        }
+        let _ = std::fs::remove_file(&p);
+        if let Some(sp) = stale_peer {
+            if sp != srv.addr && workers_alive() {
+                let _ = cl.sock.send_to(&rc::error(0, "abandoned"), sp);
+            }
+        }
+    } else {
+        let big = body(3000);
+        let _ = std::fs::write(format!("{}/x_stale", srv.send_dir), &big);
+        let _ = std::fs::write(format!("{}/x_fresh", srv.send_dir), &data);
+        cl.to_server(&rc::request(false, b"x_stale", &t1));
+        let first = cl.recv_wait(BACKSTOP);
+        let stale_peer = first.as_ref().map(|(_, from)| *from);
+        // in multi-port mode the abandoned transfer is told to stop (its own port); in single-port mode it cannot be reached
+        if let Some(sp) = stale_peer {
+            if sp != srv.addr {
+                let _ = cl.sock.send_to(&rc::error(0, "abandoned"), sp);
+                quiesce();
+            }
+        }
+        cl.reset_for_reuse();
+        desc = format!("download of a 1300-byte file by an endpoint whose earlier RRQ (answered with {}) was abandoned", first.as_ref().map(|(b, _)| rc::describe(b)).unwrap_or("nothing".into()));
+        let r = download_on(&mut cl, srv, b"x_fresh", &[], None, 0);
+        c.transitions += r.block_lens.len() as u64 + 2;
+        // retransmissions of the abandoned transfer may still reach this endpoint (single-port): they are not part of
+        // the second transfer's content and a conformant client ignores them — judge content and completion only
+        if !r.completed || r.data != data {
+            viol.push(("e2-download-content".into(), format!("{desc}: completed={} error={:?} received {} bytes, file has 1300; anomalies {:?}", r.completed, r.error, r.data.len(), &r.anomalies[..r.anomalies.len().min(3)])));
+        }
+    }
+    // let the abandoned transfer die (six 1-second timeouts at most)
+    let t0 = std::time::Instant::now();
+    while workers_alive() && t0.elapsed() < std::time::Duration::from_secs(12) {
+        std::thread::sleep(std::time::Duration::from_millis(25));
+    }
+    let _ = std::fs::remove_file(format!("{}/{}", srv.recv_dir, stale_name));
+    c.executions = 1;
+    c.states = 1;
+    c.nontrivial = 1;
+    c.trace_hashes.insert(fnv64(desc.as_bytes()) ^ cfg.single as u64);
+    for (clause, what) in viol {
+        c.violations.push(Violation { property: prop.into(), clause, facts: facts(&[("single", json!(cfg.single)), ("history", json!("abandoned-request"))]), what: format!("[{}] {}", cfg.brief(), what), replay: json!({"engine": "e2_xfer", "spec": spec}), weight: 450 });
+    }
+    if !quiesce() {
+        c.machinery_errors.push("server not quiescent at the end of the abandoned-request cell".into());
+    }
+    c.to_json()
+}
+
 /// transfers across the block-number wrap through the real Server (listener routing, both Socket impls): C15
 pub fn wrap_cell(spec: &Value) -> Value {
     let cfg = SrvCfg::from_json(&spec["srv"]);
@@ -174,6 +254,11 @@ pub fn cells(upload: bool, thorough: bool) -> Vec<Value> {
         s.single = single;
         s.overwrite = true;
         v.push(json!({"srv": s.to_json(), "upload": upload, "plain": true, "blk": 512, "ws": 1, "lens": [0, 1, 511, 512, 513, 1024, 1537]}));
+        // (downloads: multi-port only — in single-port mode the abandoned download's retransmissions reach the same
+        // endpoint and no client could tell them from the new transfer's blocks; that is TFTP, not a defect)
+        if upload || !single {
+            v.insert(0, json!({"srv": s.to_json(), "upload": upload, "stale": true}));
+        }
         let blks: Vec<usize> = if thorough { vec![8, 9, 512, 1428, 65464, 65465, 65500, 70000] } else { vec![8, 1428, 65464, 65500] };
         for blk in blks {
             let wss: Vec<usize> = if thorough { vec![1, 2, 3, 4, 16] } else { vec![1, 3] };
